@@ -1,13 +1,13 @@
 open Model
 open Main_common
 
-let custom = [("VERBOSE", 50); ("NOTICE", 450); ("ABOVE", 1500)]
+let custom = [("VERBOSE", 50); ("NOTICE", 450); ("ABOVE", 1500); ("BELOW", -7); ("ALL", -2147483648); ("OFF", 2147483647)]
 let registry = builtin_levels @ List.map (fun (n, c) -> (bytes_of_string n, z_of_int c)) custom
 
 let probe_codes : int list =
   let codes = List.map (fun (_, c) -> int_of_z c) builtin_levels @ List.map snd custom in
   let all = List.concat_map (fun c -> [c - 1; c; c + 1]) codes in
-  List.sort_uniq compare all
+  List.sort_uniq compare (List.filter (fun c -> c >= -2147483648 && c <= 2147483647) all)
 
 let entries = [ETrace; ETracef; EDebug; EDebugf; EInfo; EInfof; EWarn; EWarnf; EError; EErrorf; EPanic; EPanicf; EFatal; EFatalf]
 
